@@ -390,7 +390,14 @@ def run_case(case):
                     t = ident(traj, False)['p'] + pos + shift
                     return Assoc({k: (DEFAULTS[k] if x is UNTOUCHED else x) for k, x in values_for(case, t, len(traj)).items()})
 
-                ts.create_associated(assoc, ['vc_codec'], mapping, 0, shift=0)
+                try:
+                    ts.create_associated(assoc, ['vc_codec'], mapping, 0, shift=0)
+                except ValueError:
+                    if case.get('fits', True):
+                        raise
+                    # the mapped values of trajectory 2 name a species the associated file has no position for: refused
+                    # (Codec.tla AllOrNothing - refused as a whole or stored completely; a refusal is judged no further)
+                    return devs
                 open_kw = {'associated_files': [assoc]}
             else:
                 raise MachineryError(f'unknown layout {layout}')
@@ -531,6 +538,7 @@ def run(ctx: Ctx):
             ctx.rng.shuffle(cases)
             # (the cases with a refused addition in the single-file layout - Codec.tla AfterRefusal - are few: up to 60 always take part)
             refusals = [c for c in cases if not c.get('fits', True) and c['layout'] == 'single'][:60]
+            refusals += [c for c in cases if not c.get('fits', True) and c['layout'] == 'create_associated'][:40]
             cases = cases[:700] + [c for c in refusals if c not in cases[:700]]
         else:
             ctx.exhaustive = True
